@@ -431,6 +431,10 @@ class RAlg(_Alg):
             c.fact(("phi", t), z3.And(t > 0, t < z3.RealVal("2/5")), "sign", t)
         elif name == "PhiInv":
             c.safety_check("invcdf-domain", z3.And(a.t > 0, a.t < 1))
+            # A-Phi: PhiInv is increasing with PhiInv(1/2) = 0
+            half = z3.RealVal("1/2")
+            c.fact(("PhiInv", t), z3.And(z3.Implies(a.t > half, t > 0), z3.Implies(a.t == half, t == 0),
+                                         z3.Implies(a.t < half, t < 0)), "sign", t)
         elif name == "erf":
             c.fact(("erf", t), z3.And(t > -1, t < 1), "sign", t)
         elif name == "erfc":
